@@ -412,13 +412,22 @@ func (g *G) titleOpt() *Title {
 	return t
 }
 
+// labelWords: one to three further words, so that a label has several gaps to spell differently
+func (g *G) labelWords() string {
+	w := g.word()
+	for n := g.s.Intn(3); n > 0; n-- {
+		w += " " + g.word()
+	}
+	return w
+}
+
 func (g *G) link(c ictx) Link {
 	l := Link{Dest: g.url(), Title: g.titleOpt()}
 	l.Form = g.s.Intn(4)
 	if l.Form >= 2 {
 		// collapsed / shortcut: text is the label
 		g.nlabel++
-		l.Label = fmt.Sprintf("Lbl%d %s", g.nlabel, g.word())
+		l.Label = fmt.Sprintf("Lbl%d %s", g.nlabel, g.labelWords())
 		l.C = []Inline{Text{caseVariant(g.s, l.Label)}}
 		if !c.oneLine && !c.noBreaks && coin(g.s, 1, 3) {
 			// the label (= link text) spreads over two lines: a soft break is label whitespace
@@ -430,7 +439,7 @@ func (g *G) link(c ictx) Link {
 		l.C = g.inlines(c, 3)
 		if l.Form == 1 {
 			g.nlabel++
-			l.Label = fmt.Sprintf("Lbl%d %s", g.nlabel, g.word())
+			l.Label = fmt.Sprintf("Lbl%d %s", g.nlabel, g.labelWords())
 			l.LabelNL = !c.oneLine && !c.noBreaks && coin(g.s, 1, 3)
 		}
 	}
